@@ -82,6 +82,23 @@ func (p *parker) handler(tag []any) rux.HandlerFunc {
 					}
 				}()
 			}
+			if tag[0] == "main" && len(tag) > 1 && tag[1] == "rd" {
+				// internal redirect: re-dispatch the rewritten request on the same context, then go on using the context
+				rid := c.Req.Header.Get("X-Req")
+				c.Req.URL.Path = "/a"
+				c.Router().HandleContext(c)
+				// (read-only: the Copy() made by the inner main handler shares the data map with this context, so a Set here
+				// would race with the background job of this very request - a property of Copy(), not of concurrent requests)
+				for i := 0; i < 20; i++ {
+					runtime.Gosched()
+					if v, _ := c.Get("job"); v != rid || c.Req.Header.Get("X-Req") != rid {
+						rl.copyBad = fmt.Sprintf("after HandleContext returned, the re-dispatching handler of request %s finds job=%v, X-Req=%s on its context", rid, v, c.Req.Header.Get("X-Req"))
+						break
+					}
+				}
+				rl.log = append(rl.log, []any{"after", "rd"})
+				return
+			}
 			if tag[0] == "main" {
 				rl.param = c.Param("id")
 				c.Text(200, "main:"+c.Req.Header.Get("X-Req")+":"+rl.param)
@@ -110,6 +127,25 @@ func (p *parker) handler(tag []any) rux.HandlerFunc {
 		if tag[0] == "main" && len(tag) > 1 && tag[1] == "p" {
 			panic("boom from " + id)
 		}
+		if tag[0] == "main" && len(tag) > 1 && tag[1] == "rd" {
+			c.Req.URL.Path = "/a"
+			c.Router().HandleContext(c)
+			// back in the re-dispatching handler: one more scheduling point, the handler still works with its context
+			p.mu.Lock()
+			g := p.gates[id]
+			p.mu.Unlock()
+			if g != nil {
+				p.parked <- id
+				<-g
+			}
+			p.mu.Lock()
+			if o, ok := p.owner[c]; ok && o != id {
+				p.shared = append(p.shared, fmt.Sprintf("request %s is still working with its context, which meanwhile serves request %s", id, o))
+			}
+			p.logs[id] = append(p.logs[id], []any{"after", "rd"})
+			p.mu.Unlock()
+			return
+		}
 		if tag[0] == "main" {
 			c.Text(200, "main:"+id+":"+c.Param("id"))
 		}
@@ -133,7 +169,7 @@ func buildShape(p *parker, glen, gcap, mwlen, mwcap int, opts ...func(*rux.Route
 	}
 	ok := cap(r.Handlers()) == gcap || glen == 0
 	r.OnPanic = p.handler([]any{"hook"})
-	for _, k := range []string{"a", "b", "p"} {
+	for _, k := range []string{"a", "b", "p", "rd"} {
 		path := "/" + k
 		if k == "b" {
 			path = "/b/{id}"
@@ -164,6 +200,8 @@ func servePath(kind, id string) string {
 		return "/b/" + id
 	case "p":
 		return "/p"
+	case "rd":
+		return "/rd"
 	}
 	return "/missing"
 }
@@ -182,6 +220,10 @@ func soloLog(kind string, glen, mwlen int) [][]any {
 	out = append(out, []any{"main", kind})
 	if kind == "p" {
 		out = append(out, []any{"hook"})
+	}
+	if kind == "rd" {
+		out = append(out, soloLog("a", glen, mwlen)...)
+		out = append(out, []any{"after", "rd"})
 	}
 	return out
 }
@@ -288,18 +330,35 @@ func serveRun(s *Summary, c *serveCase, variant string) {
 		close(g)
 		return wait(id)
 	}
+	// a schedule that cannot go on: if two requests were seen on one context that is the finding, otherwise inconclusive
+	giveUp := func(at string) bool {
+		p.mu.Lock()
+		sh := append([]string{}, p.shared...)
+		p.mu.Unlock()
+		if len(sh) > 0 {
+			s.mismatch(desc("shared-context", strings.Join(sh, "; ")+" (the schedule then got stuck at "+at+")"), c)
+			return true
+		}
+		fmt.Fprintf(os.Stderr, "stuck schedule %v at %v\n", c.Sched, at)
+		os.Exit(4)
+		return false
+	}
 	stuck := false
 	for _, e := range c.Sched {
 		id, act := e[0], e[1]
 		switch act {
 		case "start":
+			if started[id] {
+				continue
+			}
 			stuck = !launch(id)
 		case "step":
 			stuck = !step(id)
 		}
 		if stuck {
-			fmt.Fprintf(os.Stderr, "stuck schedule %v at %v\n", c.Sched, e)
-			os.Exit(4)
+			if giveUp(fmt.Sprint(e)) {
+				return
+			}
 		}
 	}
 	s.Compared++
@@ -323,12 +382,16 @@ drain:
 				continue
 			}
 			if !launch(id) {
-				os.Exit(4)
+				if giveUp("launch " + id) {
+					return
+				}
 			}
 		}
 		for !finished[id] {
 			if !step(id) {
-				os.Exit(4)
+				if giveUp("step " + id) {
+					return
+				}
 			}
 		}
 	}
@@ -353,6 +416,11 @@ drain:
 				return
 			}
 		case "p":
+		case "rd":
+			if w.Body.String() != "main:"+id+":" {
+				s.mismatch(desc("interference", fmt.Sprintf("re-dispatched request %s got the body %q", id, w.Body.String())), c)
+				return
+			}
 		case "b":
 			if w.Body.String() != "main:"+id+":"+id || p.params[id] != id {
 				s.mismatch(desc("interference", fmt.Sprintf("request %s for /b/%s got body %q, param id=%q", id, id, w.Body.String(), p.params[id])), c)
@@ -402,7 +470,7 @@ func serveStress(s *Summary, rng *rand.Rand, n int, out *traceWriter) {
 		var wg sync.WaitGroup
 		var mu sync.Mutex
 		bad := []string{}
-		kinds := []string{"a", "b", "nf", "b", "a", "na"}
+		kinds := []string{"a", "b", "nf", "b", "a", "na", "rd"}
 		for w := 0; w < workers; w++ {
 			wg.Add(1)
 			wr := rand.New(rand.NewSource(rng.Int63()))
@@ -434,7 +502,7 @@ func serveStress(s *Summary, rng *rand.Rand, n int, out *traceWriter) {
 						r.ServeHTTP(rec, req)
 					}()
 					got, par := rl.log, rl.param
-					if wr.Intn(4) == 0 {
+					if wr.Intn(4) == 0 || kind == "rd" {
 						rl.bg.Wait()
 						if rl.copyBad != "" {
 							mu.Lock()
@@ -449,7 +517,7 @@ func serveStress(s *Summary, rng *rand.Rand, n int, out *traceWriter) {
 					want := soloLog(k2, sh[0], sh[2])
 					okc := (len(got) == 0 && len(want) == 0) || reflect.DeepEqual(got, want)
 					switch kind {
-					case "a":
+					case "a", "rd":
 						okc = okc && rec.Body.String() == "main:"+rid+":"
 					case "b":
 						okc = okc && rec.Body.String() == "main:"+rid+":"+id && par == id
